@@ -260,6 +260,11 @@ private:
     //      Indicates if a nil value is acceptable
     //  fNilFound
     //      Indicates if Nillable has been set
+    //  fNilStack
+    //      The fNil values of the open elements: validateElement() pushes the
+    //      value that the element's own xsi:nil attribute produced and
+    //      checkContent() pops it, so that the children of an element do
+    //      not see or clobber its state.
     // -----------------------------------------------------------------------
     //  The following used internally in the validator
     //
@@ -305,6 +310,7 @@ private:
     bool                            fSeenId;
     XSDErrorReporter                fSchemaErrorReporter;
     ValueStackOf<ComplexTypeInfo*>* fTypeStack;
+    ValueStackOf<bool>*             fNilStack;
     DatatypeValidator *             fMostRecentAttrValidator;
     bool                            fErrorOccurred;
     bool                            fElemIsSpecified;
